@@ -21,8 +21,45 @@ from sim.seedhash import H, rng_for
 P_THRESHOLD = 1e-9
 
 
+def _keystruct_program(rng):
+    """Programs that stress how keys are derived per iteration / element and per
+    call site: a vector combinator around a kernel whose call sites are a nested
+    function with several discrete choices next to plain discrete choices."""
+
+    def leaf(addr):
+        d = rng.choice(["flip", "flip", "bernoulli", "categorical"])
+        if d == "flip":
+            return {"callee": {"k": "dist", "d": "flip"}, "args": [["c", round(rng.uniform(0.3, 0.7), 2)]], "addr": [addr]}
+        if d == "bernoulli":
+            return {"callee": {"k": "dist", "d": "bernoulli"}, "args": [], "kw": {"logits": ["c", round(rng.uniform(-0.8, 0.8), 2)]}, "addr": [addr]}
+        return {"callee": {"k": "dist", "d": "categorical", "n": 2}, "args": [], "kw": {"logits": ["ca", [round(rng.uniform(-0.6, 0.6), 2), 0.0]]}, "addr": [addr]}
+
+    inner = {"k": "static", "ptypes": [], "stmts": [leaf("a%d" % i) for i in range(rng.choice([2, 2, 3]))], "ret": ["c", 0.0], "out": ["F", "real"]}
+    nested = {"callee": inner, "args": [], "addr": ["g"]}
+    plain = [leaf("v%d" % i) for i in range(rng.choice([1, 2]))]
+    pos = rng.choice([0, 0, 1])
+    stmts = plain[:pos] + [nested] + plain[pos:]
+    kind = rng.choice(["scan", "scan", "iterate", "iterate_final", "repeat", "vmap"])
+    n = rng.choice([2, 3])
+    if kind == "scan":
+        kern = {"k": "static", "ptypes": [["F", "real"], ["N"]], "stmts": stmts, "ret": ["tup", [["p", 0], ["none"]]], "out": ["T", [["F", "real"], ["N"]]]}
+        return {"k": "scan", "inner": kern, "n": n, "use_n": True}
+    if kind in ("iterate", "iterate_final"):
+        kern = {"k": "static", "ptypes": [["F", "real"]], "stmts": stmts, "ret": ["p", 0], "out": ["F", "real"]}
+        return {"k": kind, "inner": kern, "n": n}
+    kern = {"k": "static", "ptypes": [["F", "real"]], "stmts": stmts, "ret": ["p", 0], "out": ["F", "real"]}
+    if kind == "repeat":
+        return {"k": "repeat", "inner": kern, "n": n}
+    return {"k": "vmap", "inner": kern, "axes": [0], "n": n}
+
+
 def gen_script(seed, pid="C04", tier="quick"):
     rng = rng_for(seed, "dist")
+    if rng.random() < 0.4:
+        node = _keystruct_program(rng)
+        args = gen.sample_args(rng, node)
+        n = 3000 if tier == "quick" else 12000
+        return {"v": 1, "pid": "C04", "tier": tier, "seed": seed, "mode": "discrete", "programs": [node], "args": args, "n": n, "key": rng.randrange(1 << 30), "family": "keystruct"}
     mode = rng.choice(["discrete", "discrete", "continuous"])
     P = gen.default_profile()
     P["max_depth"] = 2
@@ -36,6 +73,15 @@ def gen_script(seed, pid="C04", tier="quick"):
         P["leaves"] = ["normal", "normal", "uniform", "exponential", "beta", "gamma", "flip"]
     for k in ("closure", "partial"):
         P["kinds"][k] = 0.3
+    if rng.random() < 0.4:
+        # iteration structure: keys per iteration vs keys per call site (a scan
+        # kernel whose call sites are themselves generative functions)
+        P["root_kinds"] = {"scan": 4, "accumulate": 1, "reduce": 1, "iterate": 2, "iterate_final": 1, "vmap": 2, "repeat": 2}
+        P["nest"] = 0.8
+        P["max_depth"] = 3
+        P["max_choices"] = 8
+        P["lens"] = [2, 2, 3]
+        P["max_cost"] = 24.0
     node = gen.gen_program_filtered(rng, P, ())
     args = gen.sample_args(rng, node)
     n = 3000 if tier == "quick" else 12000
